@@ -145,3 +145,46 @@ def loop_guard_execute(cx):
         triv = z3.And(ISTRUE(lg.t), z3.BoolVal(lb.kind == 'ref') if lb.kind != 'ref' else lb.t == body.t)
         return z3.If(trivial.t, triv, non_trivial)
     cx.ensures(post)
+
+
+@contract('program/transformer/conditions_reducer.py', 'ConditionsReducer._reduce_conditions', ['C02'])
+def reduce_conditions(cx):
+    """alias reuse is invalidated on reassignment: whenever an alias r (for the atom p1 cop p2) is still in the store, NO variable occurring in p1
+    or p2 has been assigned since the alias was created -- so r still has the value p1 - p2 when the alias is reused for an equal atom."""
+    USES = z3.Function('atom_uses_variable', REF, REF, B); UEXP = z3.Function('expr_uses_variable', REF, REF, B)
+    P1 = z3.Function('atom_poly1', REF, REF); P2 = z3.Function('atom_poly2', REF, REF)
+    VARA = z3.Function('assigned_variable', REF, REF); CONDA = z3.Function('assignment_condition', REF, REF); CREATED = z3.Function('alias_created_at', REF, I)
+    assigns = cx.seq('assignments', DRef('Assignment'))
+    cx.param(self=cx.obj('ConditionsReducer', program=cx.ref('program')), assignments=assigns)
+    kq = z3.Const('kq', REF); vq = z3.Const('vq', REF); j = z3.Int('j')
+    cx.axiom(z3.ForAll([kq, vq], USES(kq, vq) == z3.Or(UEXP(P1(kq), vq), UEXP(P2(kq), vq))))     # the free symbols of an atom are those of its two polynomials
+    cx.field('variable', lambda ex, st, o: V('ref', VARA(o.t)))
+    cx.field('condition', lambda ex, st, o: V('ref', CONDA(o.t)))
+    cx.field('poly1', lambda ex, st, o: V('ref', P1(o.t))); cx.field('poly2', lambda ex, st, o: V('ref', P2(o.t)))
+    cx.field('free_symbols', lambda ex, st, o: V('fsexpr', o.t))
+    cx.call('get_free_symbols', lambda ex, st, r, a, kw: V('fsatom', r.t), trusted='Atom.get_free_symbols: free symbols of poly1 and poly2')
+    cx.set_hook('in_hook', lambda ex, st, a, b: USES(b.t, a.t) if b.kind == 'fsatom' else (UEXP(b.t, a.t) if b.kind == 'fsexpr' else None))
+    empty_store = V('map', (z3.K(REF, z3.Const('noalias', REF)), z3.K(REF, z3.BoolVal(False))), kk=DRef(), vk=DRef(), size=None)
+    cx.set_hook('empty_kinds', {'store': empty_store, 'new_assignments': DSeq(DRef())})
+    n_ = [0]
+
+    def reduce(ex, st, r, a, kw):
+        # Condition.reduce(store) may add aliases for atoms of this condition: new keys are created NOW (at the current iteration index)
+        store = st.vars['store']; arr, dom = store.t
+        i = st['$i0'].t
+        NEW = z3.Function(f'new_alias_keys_{n_[0]}', REF, B); n_[0] += 1
+        ex.axioms.append(z3.ForAll([kq], z3.Implies(NEW(kq), CREATED(kq) == i)))
+        st.vars['store'] = V('map', (ex.fresh(arr.sort(), 'store_arr'), z3.Lambda([kq], z3.Or(z3.Select(dom, kq), NEW(kq)))), kk=DRef(), vk=DRef(), size=None)
+        return V('seq', ex.fresh(z3.SeqSort(tuple_sort([DRef(), DRef()])[0]), 'aliases'), ek=DTuple(DRef(), DRef()))
+    cx.call('reduce', reduce, trusted='Condition.reduce(store): Atom.reduce contract (contracts/condition.py)')
+    cx.call('simplify', lambda ex, st, r, a, kw: r)
+    cx.call('PolyAssignment.deterministic', lambda ex, st, r, a, kw: V('ref', ex.fresh(REF, 'alias_assign')))
+    cx.set_hook('loop_ghosts', ['store'])
+
+    def valid(st, upto, strict):
+        arr, dom = st['store'].t
+        return z3.ForAll([kq], z3.Implies(z3.Select(dom, kq), z3.And(CREATED(kq) < upto if strict else CREATED(kq) <= upto,
+                                                                    z3.ForAll([j], z3.Implies(z3.And(CREATED(kq) <= j, j < upto, 0 <= j), z3.Not(USES(kq, VARA(assigns.t[j]))))))))
+    cx.invariant(0, lambda st: valid(st, st['$i0'].t, True))
+    cx.invariant(1, lambda st: valid(st, st['$i0'].t, False))
+    cx.ensures(lambda st, r: z3.BoolVal(True))
